@@ -200,8 +200,9 @@ def accepts (f : Forest) (m : Method) (c : Ctx) : Bool :=
     ep && c.objExists && guardLocal c
   -- clusterevents.cpp:1393-1509
   | .executedCommand => ep && c.objExists && guardExecEndpoint f c
-  -- clusterevents.cpp:1593-1628 (:1597)
-  | .setRemovalInfo => ep && guardParent f c && c.objExists
+  -- clusterevents.cpp:1593-1644: sender's zone is the local zone or above (:1597), the comment/downtime exists,
+  -- and the sender's zone may access it (:1613, :1627)
+  | .setRemovalInfo => ep && guardParent f c && c.objExists && guardAccess f c
   -- clusterevents.cpp:913-1068 (no `endpoint` parameter or the local endpoint: local execution),
   -- clusterevents-check.cpp:108-201: sender zone, FromZone guard :119, accept_commands :166
   | .executeCommand => guardCommandSender f c && guardParent f c && c.acceptCommands
@@ -211,8 +212,8 @@ def accepts (f : Forest) (m : Method) (c : Ctx) : Bool :=
   | .configUpdateObject => guardConfigSender f c && c.acceptConfig
   -- apilistener-configsync.cpp:215-300 (:245, :254; the object must exist and belong to package _api)
   | .configDeleteObject => guardConfigSender f c && c.acceptConfig && c.objExists
-  -- jsonrpcconnection-pki.cpp:344-351: only the FromZone guard — *no* endpoint test
-  | .updateCertificate => guardParent f c
+  -- jsonrpcconnection-pki.cpp:344-351 (:346): endpoint exists and the FromZone guard
+  | .updateCertificate => ep && guardParent f c
   -- jsonrpcconnection-pki.cpp:28-: meant for anonymous clients, no guard
   | .requestCertificate => true
   -- jsonrpcconnection-heartbeat.cpp:45-48: does nothing
